@@ -9,7 +9,7 @@
 //     the case ends with waits until two in a row return nothing
 //   Q1 <cap> <msgsize> <flags> <ops...>   queue, one thread: E:<len>:<tag> D:<bufsize> X(clear) S(stats) F(is_full/is_empty)
 //   QT <cap> <flags> <producers> <msgs> <seed>   queue, producers + one consumer, seeded yields
-//   WK <kind> <delay_us> <stop:0|1> <join_ms> <seed>   worker life cycle; kind: 0 loops on should_stop, 1 waits on the stop event, 2 returns at once,
+//   WK <kind> <delay_us> <stop:0|1> <join_ms> <seed>   worker life cycle; kind: 0 loops on should_stop, 1 waits on the stop event, 2 returns at once, 4 sleeps on the stop event between should_stop polls, 5 waits on the event and then asks should_stop,
 //                                                      3 ignores stop for 150 ms
 //   TM <interval_us> <run_ms> <restarts>   timer start / stop / cleanup; callbacks are time-stamped
 #include <config.h>
@@ -257,6 +257,8 @@ static void *wk_proc (void *p) {
     c->iterations++;
     c->last_run_us = now_us ();
     if (c->kind == 1) { if (platform_event_wait (async_worker_get_stop_event (me), 50)) break; }
+    else if (c->kind == 4) { if (async_worker_should_stop (me)) break; platform_event_wait (async_worker_get_stop_event (me), 30); }   // sleeps on the stop event, decides by should_stop
+    else if (c->kind == 5) { if (platform_event_wait (async_worker_get_stop_event (me), 20) && async_worker_should_stop (me)) break; }  // woken early, then asks again
     else if (c->kind == 3) { if (now_us () - t0 > 150000 && async_worker_should_stop (me)) break; usleep (500); }
     else { if (async_worker_should_stop (me)) break; usleep (200); }
   }
